@@ -104,12 +104,23 @@ func (s *set[ElementType]) Replace(elements ds.ReadableSet[ElementType]) (remove
 	return appliedMutations.DeletedElements()
 }
 
-// Decode decodes the set from a byte slice.
-func (s *set[ElementType]) Decode(api *serix.API, b []byte) (bytesRead int, err error) {
-	s.readableSet.mutex.Lock()
-	defer s.readableSet.mutex.Unlock()
+// Clear removes all elements from the set. It is a write like any other: the subscribers are notified about the removed
+// elements (the Clear of the embedded set would empty the set behind their back).
+func (s *set[ElementType]) Clear() {
+	s.Replace(ds.NewSet[ElementType]())
+}
 
-	return s.value.Decode(api, b)
+// Decode decodes the set from a byte slice: the decoded elements are added to the set. It is a write like any other:
+// the subscribers are notified about the added elements.
+func (s *set[ElementType]) Decode(api *serix.API, b []byte) (bytesRead int, err error) {
+	decodedElements := ds.NewSet[ElementType]()
+	if bytesRead, err = decodedElements.Decode(api, b); err != nil {
+		return bytesRead, err
+	}
+
+	s.AddAll(decodedElements)
+
+	return bytesRead, nil
 }
 
 // ReadOnly returns a read-only version of the set.
@@ -176,6 +187,11 @@ func newReadableSet[ElementType comparable](elements ...ElementType) *readableSe
 		updateCallbacks: ds.NewList[*callback[func(ds.SetMutations[ElementType])]](),
 	}
 }
+
+// Clear does nothing: this is the read-only side of the set (the Clear method is only part of it because the embedded
+// ds.ReadableSet has one). Emptying the underlying set from here would go unnoticed by the subscribers and, for a derived
+// set, break its relation to its sources.
+func (r *readableSet[ElementType]) Clear() {}
 
 // OnUpdate registers the given callback to be triggered when the value of the set changes.
 func (r *readableSet[ElementType]) OnUpdate(callback func(appliedMutations ds.SetMutations[ElementType]), triggerWithInitialZeroValue ...bool) (unsubscribe func()) {
